@@ -576,6 +576,9 @@ impl DcpsDomainParticipant {
                     .stateful_data_reader_list_mut(),
             )
         {
+            if !dr.transport_reader.is_addressed(gap_submessage._reader_id()) {
+                continue;
+            }
             let writer_guid = Guid::new(
                 message_receiver.source_guid_prefix(),
                 gap_submessage.writer_id(),
